@@ -1,7 +1,610 @@
-//! C19 engine (stub)
+//! C19: dispatch. (1) ObjectPathPattern::{new,matches} exhaustively through PathMatcher::{insert,get_match}
+//! against an oracle written from the property text; (2) route tables with several patterns: the handler
+//! returned by get_match is really invoked and must belong to a matching pattern / be the unique match;
+//! (3) DispatchConn::run on a real connection to a scripted peer with logging handlers that reply, stay
+//! silent, fail and add routes.
+use rustbus::connection::dispatch_conn::{DispatchConn, HandleEnvironment, HandleError, HandleFn, Matches, PathMatcher};
+use rustbus::connection::ll_conn::SendConn;
+use rustbus::message_builder::{MarshalledMessage, MessageBuilder, MessageType};
+use std::cell::RefCell;
+use std::collections::{BTreeMap, HashMap};
+use std::io::Write;
+use std::num::NonZeroU32;
+use std::rc::Rc;
+use std::sync::{Arc, Mutex};
 use vcore::common::*;
+use vcore::eng_wire::guard;
+use vcore::peer;
+
+// ---------------------------------------------------------------------------------------------
+// oracle, written from the property text (no use of the library, not even of str::split)
+// ---------------------------------------------------------------------------------------------
+fn segments(s: &str) -> Vec<String> {
+    let mut out = vec![String::new()];
+    for c in s.chars() {
+        if c == '/' {
+            out.push(String::new());
+        } else {
+            out.last_mut().unwrap().push(c);
+        }
+    }
+    out
+}
+
+/// literal segments equal, named segments captured under their name, a wildcard matches one segment
+/// or, as last segment, any non-empty tail
+fn rel(pat: &[String], path: &[String], caps: &mut BTreeMap<String, String>) -> bool {
+    match (pat.first(), path.first()) {
+        (None, None) => true,
+        (None, Some(_)) | (Some(_), None) => false,
+        (Some(p), Some(q)) => {
+            if p == "*" {
+                if pat.len() == 1 {
+                    return true; // `path` is a non-empty tail
+                }
+                rel(&pat[1..], &path[1..], caps)
+            } else if p.starts_with(':') {
+                caps.insert(p.clone(), q.clone()); // a repeated name keeps the last
+                rel(&pat[1..], &path[1..], caps)
+            } else {
+                p == q && rel(&pat[1..], &path[1..], caps)
+            }
+        }
+    }
+}
+
+fn oracle(pattern: &str, path: &str) -> Option<BTreeMap<String, String>> {
+    let mut caps = BTreeMap::new();
+    if rel(&segments(pattern), &segments(path), &mut caps) {
+        Some(caps)
+    } else {
+        None
+    }
+}
+
+fn show_caps<'a, I: Iterator<Item = (&'a String, &'a String)>>(it: I) -> String {
+    let mut v: Vec<(&String, &String)> = it.collect();
+    v.sort();
+    if v.is_empty() {
+        return "-".into();
+    }
+    v.iter().map(|(k, v)| format!("{}={}", cps(k), cps(v))).collect::<Vec<_>>().join(";")
+}
+
+// ---------------------------------------------------------------------------------------------
+// (1) exhaustive pattern x path
+// ---------------------------------------------------------------------------------------------
+const ALPHA: [&str; 5] = ["", "a", "b", ":x", "*"];
+
+/// all '/'-joined segment lists over ALPHA with 1..=n segments, plus those with n+1 segments whose
+/// first segment is empty (the shape of real object paths: "/s1/../sn")
+fn universe(n: usize) -> Vec<String> {
+    let mut out = Vec::new();
+    let mut level: Vec<Vec<&str>> = vec![vec![]];
+    for len in 1..=n + 1 {
+        let mut next = Vec::new();
+        for l in &level {
+            for a in ALPHA {
+                let mut l2 = l.clone();
+                l2.push(a);
+                next.push(l2);
+            }
+        }
+        for l in &next {
+            if len <= n || l[0].is_empty() {
+                out.push(l.join("/"));
+            }
+        }
+        level = next;
+    }
+    out
+}
+
+fn noop_handler<U>() -> Box<HandleFn<U, ()>> {
+    Box::new(|_, _, _, _| Ok(None))
+}
+
+fn exhaustive(out: &mut Out, n: usize) {
+    let uni = universe(n);
+    for pattern in &uni {
+        let mut pm: PathMatcher<(), ()> = PathMatcher::new();
+        pm.insert(pattern, noop_handler());
+        for path in &uni {
+            let req = format!("c19.match {} {}", cps(pattern), cps(path));
+            let got = match guard(|| pm.get_match(path).map(|(m, _)| m.matches)) {
+                Ok(g) => g,
+                Err(_) => {
+                    out.violation(&req, "get_match panicked");
+                    out.case(&req, "panic", true);
+                    continue;
+                }
+            };
+            let want = oracle(pattern, path);
+            let obs = match &got {
+                Some(m) => format!("some {}", show_caps(m.iter())),
+                None => "none".to_string(),
+            };
+            let wanted = match &want {
+                Some(m) => format!("some {}", show_caps(m.iter())),
+                None => "none".to_string(),
+            };
+            if obs != wanted {
+                out.violation(&req, &format!("pattern {:?} on path {:?}: library {}, the matching relation says {}", pattern, path, obs, wanted));
+            }
+            match &got {
+                Some(m) if m.is_empty() => out.hit("match_no_captures"),
+                Some(_) => out.hit("match_with_captures"),
+                None => out.hit("no_match"),
+            }
+            if got.is_some() && segments(path).len() > segments(pattern).len() {
+                out.hit("match_by_wildcard_tail");
+            }
+            out.case(&req, &obs, true);
+        }
+    }
+}
+
+// ---------------------------------------------------------------------------------------------
+// (2) route tables
+// ---------------------------------------------------------------------------------------------
+fn dummy_msg() -> MarshalledMessage {
+    MessageBuilder::new().call("M").on("/o").build()
+}
+
+fn tables(out: &mut Out, rng: &mut Prng, n_tables: usize, send: &Arc<Mutex<SendConn>>) {
+    let small = universe(2);
+    let big = universe(3);
+    let msg = dummy_msg();
+    for _ in 0..n_tables {
+        let k = rng.range(2, 4) as usize;
+        let pats: Vec<String> = (0..k)
+            .map(|_| if rng.chance(2, 3) { rng.pick(&small).clone() } else { rng.pick(&big).clone() })
+            .collect();
+        // handler i stores i into the user data when it is invoked
+        let mut pm: PathMatcher<Option<usize>, ()> = PathMatcher::new();
+        for (i, p) in pats.iter().enumerate() {
+            pm.insert(
+                p,
+                Box::new(move |ud: &mut Option<usize>, _m: Matches, _msg: &MarshalledMessage, _env: &mut HandleEnvironment<Option<usize>, ()>| {
+                    *ud = Some(i);
+                    Ok(None)
+                }),
+            );
+        }
+        // the live entry of a pattern string is the one inserted last
+        let live: Vec<bool> = (0..k).map(|i| !pats[i + 1..].contains(&pats[i])).collect();
+        let table = pats.iter().map(|p| cps(p)).collect::<Vec<_>>().join("|");
+        let paths: Vec<&String> = if rng.chance(1, 2) { small.iter().collect() } else { (0..40).map(|_| rng.pick(&big)).collect() };
+        for path in paths {
+            let mut ud: Option<usize> = None;
+            let mut env = HandleEnvironment { conn: send.clone(), new_dispatches: PathMatcher::new() };
+            let got_caps = match pm.get_match(path) {
+                Some((m, h)) => {
+                    let caps = show_caps(m.matches.iter());
+                    let _ = h(&mut ud, m, &msg, &mut env);
+                    Some(caps)
+                }
+                None => None,
+            };
+            let matching: Vec<usize> = (0..k).filter(|i| live[*i] && oracle(&pats[*i], path).is_some()).collect();
+            let chosen = match (&got_caps, ud) {
+                (Some(_), Some(i)) => i.to_string(),
+                (None, None) => "d".to_string(),
+                _ => {
+                    out.violation(&format!("c19.table {} {}", table, cps(path)), "get_match returned a handler that is none of the registered ones");
+                    "d".to_string()
+                }
+            };
+            let req = format!("c19.table {} {} {}", table, cps(path), chosen);
+            match ud {
+                Some(i) => {
+                    if !matching.contains(&i) {
+                        out.violation(&req, &format!("patterns {:?}, path {:?}: handler {} was chosen but its pattern does not match (or was replaced)", pats, path, i));
+                    }
+                    if let Some(want) = oracle(&pats[i], path) {
+                        if got_caps.as_deref() != Some(show_caps(want.iter()).as_str()) {
+                            out.violation(&req, &format!("captures {:?} handed over, expected {:?}", got_caps, want));
+                        }
+                    }
+                }
+                None => {
+                    if !matching.is_empty() {
+                        out.violation(&req, &format!("patterns {:?}, path {:?}: no route found although {:?} match", pats, path, matching));
+                    }
+                }
+            }
+            out.hit(match matching.len() {
+                0 => "table_no_match",
+                1 => "table_unique_match",
+                _ => "table_ambiguous",
+            });
+            out.case(&req, "legal", true);
+            if matching.len() <= 1 {
+                // the answer is determined, the model has to name the same handler
+                let obs = match (ud, &got_caps) {
+                    (Some(i), Some(c)) => format!("h={} {}", i, c),
+                    _ => "default".to_string(),
+                };
+                if matching.len() == 1 && ud != Some(matching[0]) {
+                    out.violation(&req, &format!("exactly one pattern ({}) matches but {:?} was chosen", matching[0], ud));
+                }
+                out.case(&format!("c19.lookup {} {}", table, cps(path)), &obs, true);
+            }
+        }
+    }
+}
+
+// ---------------------------------------------------------------------------------------------
+// (3) DispatchConn::run against the scripted peer
+// ---------------------------------------------------------------------------------------------
+#[derive(Clone)]
+struct Script {
+    beh: char, // n = Ok(None), r = Ok(Some(custom)), e = Err
+    bad_reply: bool, // the custom reply cannot be marshalled (send_message fails)
+    adds: Vec<(String, usize)>,
+}
+
+type Log = Rc<RefCell<Vec<(String, u32, String)>>>; // who, serial of the message, captures
+
+/// the user data given to DispatchConn::new (it is private in there, hence the shared log)
+struct Ctx {
+    log: Log,
+    script: HashMap<u32, Script>,
+}
+
+fn custom_reply(msg: &MarshalledMessage, bad: bool) -> MarshalledMessage {
+    let serial = msg.dynheader.serial.map(|s| s.get()).unwrap_or(0);
+    let mut r = msg.dynheader.make_error_response("h.Custom", None);
+    r.dynheader.response_serial = NonZeroU32::new(serial + 1000);
+    r.dynheader.destination = Some("h.custom".into());
+    if bad {
+        r.typ = MessageType::Invalid;
+    }
+    r
+}
+
+fn handler(who: Option<usize>) -> Box<HandleFn<Ctx, String>> {
+    Box::new(move |ctx: &mut Ctx, m: Matches, msg: &MarshalledMessage, env: &mut HandleEnvironment<Ctx, String>| {
+        let serial = msg.dynheader.serial.map(|s| s.get()).unwrap_or(0);
+        ctx.log.borrow_mut().push((who.map(|h| h.to_string()).unwrap_or("d".into()), serial, show_caps(m.matches.iter())));
+        let sc = match ctx.script.get(&serial) {
+            Some(s) => s.clone(),
+            None => return Ok(None),
+        };
+        for (pat, h) in &sc.adds {
+            env.new_dispatches.insert(pat, handler(Some(*h)));
+        }
+        match sc.beh {
+            'n' => Ok(None),
+            'r' => Ok(Some(custom_reply(msg, sc.bad_reply))),
+            _ => Err(HandleError::User(format!("handler failed on {}", serial))),
+        }
+    })
+}
+
+struct Ev {
+    serial: u32,
+    sender: Option<String>,
+    object: Option<String>,
+    kind: u8, // 0 call, 1 signal, 2 method return without object path
+    script: Script,
+}
+
+const RUN_PATTERNS: [&str; 16] = [
+    "/", "/a", "/b", "/:x", "/*", "/a/b", "/a/:x", "/a/*", "/:x/b", "/:x/:y", "/:x/:x", "/b/*", "/*/a", "/a/b/c", "/b/:x/*", "/a/b/:z",
+];
+const RUN_PATHS: [&str; 12] = ["/", "/a", "/b", "/c", "/a/b", "/b/a", "/a/a", "/b/c", "/a/b/c", "/b/a/c", "/a/b/c/d", "/b/b/a/a"];
+const SENDERS: [Option<&str>; 4] = [None, Some(":1.5"), Some("org.example.Caller"), Some(":1.4294967295")];
+
+fn matching_patterns<'a>(table: &'a BTreeMap<String, usize>, path: &str) -> Vec<(&'a String, usize)> {
+    table.iter().filter(|(p, _)| oracle(p, path).is_some()).map(|(p, h)| (p, *h)).collect()
+}
+
+/// a valid object path that the pattern matches
+fn instantiate(pattern: &str, rng: &mut Prng) -> String {
+    let segs = segments(pattern);
+    let mut out: Vec<String> = Vec::new();
+    for (i, s) in segs.iter().enumerate().skip(1) {
+        if s.starts_with(':') {
+            out.push(rng.pick(&["a", "b", "c"]).to_string());
+        } else if s == "*" {
+            out.push(rng.pick(&["a", "b", "c"]).to_string());
+            if i + 1 == segs.len() {
+                for _ in 0..rng.below(3) {
+                    out.push(rng.pick(&["a", "b", "c"]).to_string());
+                }
+            }
+        } else if !s.is_empty() {
+            out.push(s.clone());
+        }
+    }
+    format!("/{}", out.join("/"))
+}
+
+fn build_incoming(ev: &Ev) -> Vec<u8> {
+    let mut msg = match ev.kind {
+        1 => MessageBuilder::new().signal("a.b", "S", ev.object.clone().unwrap()).build(),
+        _ => MessageBuilder::new().call("M").on(ev.object.clone().unwrap_or("/x".into())).with_interface("a.b").build(),
+    };
+    if ev.kind == 2 {
+        msg.typ = MessageType::Reply;
+        msg.dynheader.object = None;
+        msg.dynheader.member = None;
+        msg.dynheader.interface = None;
+        msg.dynheader.response_serial = NonZeroU32::new(77);
+    }
+    msg.dynheader.sender = ev.sender.clone();
+    msg.dynheader.destination = Some("org.me".into());
+    if ev.serial % 3 == 0 {
+        msg.body.push_param(ev.serial).unwrap();
+    }
+    let mut buf = Vec::new();
+    rustbus::wire::marshal::marshal(&msg, NonZeroU32::new(ev.serial).unwrap(), &mut buf).expect("marshal incoming");
+    buf.extend_from_slice(msg.get_buf());
+    buf
+}
+
+fn scenario(out: &mut Out, rng: &mut Prng, max_events: u64, peer_gone: bool) {
+    // --- generate: the engine keeps its own idea of the route table (pattern string -> handler id) to keep
+    // every lookup unambiguous and to evaluate the property directly
+    let mut next_hid = 1usize;
+    let mut table: BTreeMap<String, usize> = BTreeMap::new();
+    let mut init: Vec<(String, usize)> = Vec::new();
+    let mut mentioned: Vec<String> = Vec::new();
+    for _ in 0..rng.below(4) {
+        let p = rng.pick(&RUN_PATTERNS).to_string();
+        init.push((p.clone(), next_hid));
+        mentioned.push(p.clone());
+        table.insert(p, next_hid);
+        next_hid += 1;
+    }
+    let n = rng.range(1, max_events);
+    let mut evs: Vec<Ev> = Vec::new();
+    let mut serial = rng.range(1, 50) as u32;
+    // expectations computed directly from the property text
+    let mut want_inv: Vec<(String, u32, String)> = Vec::new();
+    let mut want_wr: Vec<(Option<u32>, Option<String>, bool)> = Vec::new();
+    let mut want_ret: Vec<String> = Vec::new();
+    for _ in 0..n {
+        serial += rng.range(1, 9) as u32;
+        let kind = match rng.below(10) {
+            0 => 1,
+            1 => 2,
+            _ => 0,
+        };
+        // pick an object path with at most one matching pattern; most of the time one that fits a pattern
+        // that was registered (or that a failing handler tried to register) recently
+        let mut object = None;
+        if kind != 2 {
+            for _ in 0..20 {
+                let p = if !mentioned.is_empty() && rng.chance(3, 5) {
+                    let lo = mentioned.len().saturating_sub(4);
+                    instantiate(&mentioned[lo + rng.below((mentioned.len() - lo) as u64) as usize], rng)
+                } else {
+                    rng.pick(&RUN_PATHS).to_string()
+                };
+                if matching_patterns(&table, &p).len() <= 1 {
+                    object = Some(p);
+                    break;
+                }
+            }
+            if object.is_none() {
+                object = Some("/c/c/c/c/c".to_string()); // may still be ambiguous; checked below
+            }
+        }
+        let ambiguous = object.as_ref().map(|o| matching_patterns(&table, o).len() > 1).unwrap_or(false);
+        if ambiguous {
+            break;
+        }
+        let beh = match rng.below(10) {
+            0..=4 => 'n',
+            5..=7 => 'r',
+            _ => 'e',
+        };
+        let bad_reply = beh == 'r' && rng.chance(1, 5);
+        let mut adds = Vec::new();
+        for _ in 0..(if rng.chance(1, 2) { rng.below(3) } else { 0 }) {
+            let p = if rng.chance(1, 6) && !table.is_empty() {
+                // replace an existing route
+                table.keys().nth(rng.below(table.len() as u64) as usize).unwrap().clone()
+            } else {
+                rng.pick(&RUN_PATTERNS).to_string()
+            };
+            mentioned.push(p.clone());
+            adds.push((p, next_hid));
+            next_hid += 1;
+        }
+        let sender = rng.pick(&SENDERS).map(|s| s.to_string());
+        // expectation
+        let (who, caps) = match &object {
+            Some(o) => match matching_patterns(&table, o).first() {
+                Some((p, h)) => (h.to_string(), show_caps(oracle(p, o).unwrap().iter())),
+                None => ("d".to_string(), "-".to_string()),
+            },
+            None => ("d".to_string(), "-".to_string()),
+        };
+        want_inv.push((who, serial, caps));
+        let send_ok = !peer_gone && !bad_reply;
+        match beh {
+            'e' => want_ret.push(format!("h@{}", serial)),
+            _ => {
+                for (p, h) in &adds {
+                    table.insert(p.clone(), *h);
+                }
+                if send_ok {
+                    if beh == 'n' {
+                        want_wr.push((Some(serial), sender.clone(), false));
+                    } else {
+                        want_wr.push((Some(serial + 1000), Some("h.custom".into()), true));
+                    }
+                } else {
+                    want_ret.push(format!("s@{}", serial));
+                }
+            }
+        }
+        out.hit(match beh {
+            'n' => "handler_ok_none",
+            'r' => {
+                if bad_reply {
+                    "handler_ok_unsendable_reply"
+                } else {
+                    "handler_ok_custom_reply"
+                }
+            }
+            _ => "handler_err",
+        });
+        if !adds.is_empty() {
+            out.hit(if beh == 'e' { "routes_added_by_failing_handler" } else { "routes_added_by_ok_handler" });
+        }
+        evs.push(Ev { serial, sender, object, kind, script: Script { beh, bad_reply, adds } });
+    }
+    if evs.is_empty() {
+        return;
+    }
+    // --- request line
+    let routes = if init.is_empty() { "-".to_string() } else { init.iter().map(|(p, h)| format!("{}={}", cps(p), h)).collect::<Vec<_>>().join("|") };
+    let events = evs
+        .iter()
+        .map(|e| {
+            format!(
+                "{};{};{};{};{};{}",
+                e.serial,
+                e.sender.as_ref().map(|s| cps(s)).unwrap_or("!".into()),
+                e.object.as_ref().map(|s| cps(s)).unwrap_or("!".into()),
+                e.script.beh,
+                if !peer_gone && !e.script.bad_reply { 1 } else { 0 },
+                if e.script.adds.is_empty() { "-".to_string() } else { e.script.adds.iter().map(|(p, h)| format!("{}={}", cps(p), h)).collect::<Vec<_>>().join("+") }
+            )
+        })
+        .collect::<Vec<_>>()
+        .join("|");
+    let req = format!("c19.run {} {}", routes, events);
+
+    // --- run the real thing
+    let (conn, mut server) = peer::connect_pair(false);
+    let shared: Log = Rc::new(RefCell::new(Vec::new()));
+    let ctx = Ctx { log: shared.clone(), script: evs.iter().map(|e| (e.serial, e.script.clone())).collect() };
+    let mut dc = DispatchConn::new(conn, ctx, handler(None));
+    for (p, h) in &init {
+        dc.add_handler(p, handler(Some(*h)));
+    }
+    for e in &evs {
+        server.write_all(&build_incoming(e)).unwrap();
+    }
+    let mut server = if peer_gone {
+        drop(server);
+        None
+    } else {
+        server.shutdown(std::net::Shutdown::Write).unwrap();
+        Some(server)
+    };
+    let mut rets: Vec<String> = Vec::new();
+    let mut end = "no-end".to_string();
+    let panicked = guard(|| {
+        for _ in 0..evs.len() + 2 {
+            match dc.run() {
+                Ok(()) => {
+                    end = "returned-ok".into();
+                    break;
+                }
+                Err((None, HandleError::Connection(rustbus::connection::Error::ConnectionClosed))) => {
+                    end = "closed".into();
+                    break;
+                }
+                Err((None, e)) => {
+                    end = format!("receive-error {:?}", e);
+                    break;
+                }
+                Err((Some(m), HandleError::User(_))) => rets.push(format!("h@{}", m.dynheader.serial.map(|s| s.get()).unwrap_or(0))),
+                Err((Some(m), _)) => rets.push(format!("s@{}", m.dynheader.serial.map(|s| s.get()).unwrap_or(0))),
+            }
+        }
+    })
+    .is_err();
+    let log: Vec<(String, u32, String)> = shared.borrow().clone();
+    if panicked {
+        out.violation(&req, "DispatchConn::run panicked");
+    }
+    let wr: Vec<(Option<u32>, Option<String>, bool)> = match server.as_mut() {
+        Some(s) => {
+            let bytes = peer::drain(s);
+            match peer::split_frames(&bytes) {
+                Some(frames) => frames
+                    .iter()
+                    .map(|f| {
+                        let m = peer::decode_frame(f).expect("reply decodes");
+                        (m.dynheader.response_serial.map(|s| s.get()), m.dynheader.destination.clone(), matches!(m.typ, MessageType::Error))
+                    })
+                    .collect(),
+                None => {
+                    out.violation(&req, "the bytes written by run() are not a whole number of messages");
+                    Vec::new()
+                }
+            }
+        }
+        None => Vec::new(),
+    };
+    // --- the property, directly
+    if end != "closed" {
+        out.violation(&req, &format!("run() did not end with ConnectionClosed after the peer closed: {}", end));
+    }
+    if log.len() != evs.len() || log.iter().zip(evs.iter()).any(|(l, e)| l.1 != e.serial) {
+        out.violation(
+            &req,
+            &format!("each message must be given to exactly one handler: messages {:?}, invocations {:?}", evs.iter().map(|e| e.serial).collect::<Vec<_>>(), log),
+        );
+    } else {
+        for (l, w) in log.iter().zip(want_inv.iter()) {
+            if l != w {
+                out.violation(&req, &format!("message {}: handler {} (captures {}) was invoked, expected {} ({})", l.1, l.0, l.2, w.0, w.2));
+            }
+        }
+    }
+    if wr != want_wr {
+        out.violation(&req, &format!("replies (reply_serial, destination, is_error) seen by the peer {:?}, expected {:?}", wr, want_wr));
+    }
+    if rets != want_ret {
+        out.violation(&req, &format!("run() returned with {:?}, expected {:?}", rets, want_ret));
+    }
+    // --- canonical log, same format as the model prints
+    let join_or = |v: Vec<String>, sep: &str| if v.is_empty() { "-".to_string() } else { v.join(sep) };
+    let obs = format!(
+        "inv={} wr={} ret={}",
+        join_or(log.iter().map(|l| format!("{}:{}", l.0, l.2)).collect(), "|"),
+        join_or(
+            wr.iter()
+                .map(|w| format!("{}:{}:{}", w.0.map(|s| s.to_string()).unwrap_or("!".into()), w.1.as_ref().map(|s| cps(s)).unwrap_or("!".into()), if w.2 { 1 } else { 0 }))
+                .collect(),
+            "|"
+        ),
+        join_or(rets.clone(), ",")
+    );
+    out.hit(if peer_gone { "scenario_peer_gone" } else { "scenario" });
+    out.hit_n("scenario_events", evs.len() as u64);
+    out.hit_n("replies_seen_at_peer", wr.len() as u64);
+    if log.iter().any(|l| l.0 == "d") {
+        out.hit("scenario_with_default_handler");
+    }
+    if evs.iter().any(|e| e.kind == 2) {
+        out.hit("scenario_with_message_without_object_path");
+    }
+    out.case(&req, &obs, evs.len() >= 2);
+}
 
 pub fn run(cfg: &Cfg) {
-    let out = Out::new(&cfg.outdir);
-    out.finish("stub", false);
+    std::panic::set_hook(Box::new(|_| {}));
+    let mut out = Out::new(&cfg.outdir);
+    let mut rng = Prng::new(cfg.seed);
+    exhaustive(&mut out, if cfg.thorough { 4 } else { 3 });
+    let (conn, _server) = peer::connect_pair(false);
+    let send = Arc::new(Mutex::new(conn.send));
+    tables(&mut out, &mut rng, if cfg.thorough { 4000 } else { 400 }, &send);
+    let n = if cfg.thorough { 1500 } else { 150 };
+    for i in 0..n {
+        scenario(&mut out, &mut rng, if cfg.thorough { 20 } else { 8 }, i % 10 == 9);
+    }
+    out.finish(
+        "(1) every pattern x every path over '/'-joined segment lists from {empty, a, b, :x, *} with up to 3 (quick) / 4 (thorough) segments, plus one more when the first is empty, through PathMatcher::insert/get_match, compared with an oracle written from the property text; (2) random tables of 2-4 such patterns (duplicates included) x paths, the handler returned by get_match is invoked and identified, judged legal/illegal by the model and required to be the unique match where there is one; (3) random histories (initial routes, up to 8 / 20 calls, signals and object-less messages with random senders; handlers return Ok(None) / Ok(Some(custom reply)) / an unsendable reply / Err and add or replace routes) run by DispatchConn::run on a real connection to a scripted peer (every tenth scenario the peer is already gone), run() is called again after every error return; invocation log, replies decoded at the peer and error returns compared; distinct by request line; non-trivial = all match/table cases, histories with at least 2 messages",
+        false,
+    );
 }
